@@ -87,3 +87,12 @@ mut('c02-node-bank-add', ['C02'], 'src/encode.rs', "write!(writer, \"{}:{}\", no
 mut('c02-preview-time-u', ['C02'], 'src/encode.rs', "            GeneralKey::PreviewTime,\n            self.preview_time,", "            GeneralKey::PreviewTime,\n            self.preview_time.max(-1),")
 mut('c02-implicit-segment-perfect', ['C02'], 'src/encode.rs', "point.path_type != last_type || point.path_type == Some(PathType::PERFECT_CURVE);", "point.path_type != last_type;")
 mut('c02-sv-precision', ['C02'], 'src/encode.rs', "write!(writer, \"{},{},\", group.time, -100.0 / props.slider_velocity)?;", "write!(writer, \"{},{:.3},\", group.time, -100.0 / props.slider_velocity)?;")
+
+# ---- C04
+mut('c04-swap-section-writers', ['C04'], 'src/encode.rs', "        self.encode_editor(&mut writer)?;\n\n        writer.write_all(b\"\\n\")?;\n        self.encode_metadata(&mut writer)?;", "        self.encode_metadata(&mut writer)?;\n\n        writer.write_all(b\"\\n\")?;\n        self.encode_editor(&mut writer)?;")
+mut('c04-pipe-before-repeat', ['C04'], 'src/encode.rs', "\"{span_count},{dist},\",", "\"{span_count}|{dist},\",")
+mut('c04-revert-F3-separator', ['C04'], 'src/encode.rs', "                let type_separator = if control_points.len() == 1 {\n                    b','\n                } else {\n                    b'|'\n                };", "                let type_separator = separator(i);")
+mut('c04-custom-colour-name-prefix', ['C04'], 'src/encode.rs', "                \"{}: {},{},{},{}\",\n                custom.name,", "                \"Custom{}: {},{},{},{}\",\n                custom.name,")
+mut('c04-bookmarks-space', ['C04'], 'src/encode.rs', "write!(writer, \",{bookmark}\")?;", "write!(writer, \", {bookmark}\")?;")
+mut('c04-version-line-upper', ['C04'], 'src/encode.rs', "writeln!(writer, \"osu file format v{}\", self.format_version)?;", "writeln!(writer, \"osu file format V{}\", self.format_version)?;")
+mut('c04-timing-meter-zero', ['C02'], 'src/encode.rs', "                props.timing_signature,\n                props.sample_bank,", "                props.timing_signature.saturating_sub(1),\n                props.sample_bank,")
